@@ -46,8 +46,11 @@ class WFQ(Scheduler):
         """
         weight_sum = 0.0
         now = self.env.now
-        for i in self.active_set:
-            weight_sum += self.weights[i]
+        # in configuration order: a float sum depends on the order of its
+        # terms, and a set (of string class ids) iterates in hash order
+        for i in self.weights:
+            if i in self.active_set:
+                weight_sum += self.weights[i]
         self.vtime += (now - self.last_time) / weight_sum
 
     def reset_vtime(self):
